@@ -90,7 +90,11 @@ let run_mid () =
     match split ' ' line with
     | ["cfg"; "zero"] -> rind_zero := true; print_string "cfg ok\n"
     | ["cfg"; "core"] -> rind_zero := false; print_string "cfg ok\n"
-    | [op; target; name; _api; _t; sdims; rlo; s; m; base] when op = "w" || op = "r" ->
+    | [op; target; name; api; ty; sdims; rlo; s; m; base] when op = "w" || op = "r" ->
+        (* t=<mem>/<file>: a converting read.  Hyperslab.v models equal types; the one type-dependent decision of
+           cgi_array_general_read is kept here, in the driver: on ADF a converting read into a partial memory range
+           is refused before anything is transferred (on HDF5 libhdf5 converts in place). *)
+        let converting = String.contains ty '/' in
         let key = target ^ "/" ^ name in
         let sdims = parse_ints (after_eq sdims) in
         let rlo = after_eq rlo in
@@ -121,6 +125,10 @@ let run_mid () =
           let mem = List.init n (fun j -> z_of_int (-(base + j))) in
           let res =
             if not exists then (print_string "r err\n"; mem)       (* array not found *)
+            else if converting && api = "general" && Sys.argv.(2) = "adf" &&
+                    List.exists2 (fun d r -> r <> [1; d]) mdims mrs &&
+                    (match mid_read b old sd md file mem with MidOk _ -> true | _ -> false)
+            then (print_string "r err\n"; mem)
             else match mid_read b old sd md file mem with
               | MidOk m' -> print_string "r ok\n"; m'
               | _ -> print_string "r err\n"; mem in
